@@ -380,4 +380,124 @@ theorem iterKey_spec (get : Bytes → Option Bytes) (V : Bytes → Option Repr) 
           · change (List.foldl (iterStep get m n ch pre) (c', false, [(pre, b)]) (List.finRange 16)).2.2 = _
             rw [f2]; rfl
 
+/-! ### growing the view: only `nodeNotFound` answers can change -/
+
+/-- every node `V` holds, `V'` holds too -/
+def Agrees (V V' : Bytes → Option Repr) : Prop := ∀ k r, V k = some r → V' k = some r
+
+theorem lookupP_mono {V V' : Bytes → Option Repr} (h : Agrees V V') :
+    ∀ (n : Nat) (k p : Bytes),
+      lookupP (buildV V n k) p = .nodeNotFound ∨ lookupP (buildV V n k) p = lookupP (buildV V' n k) p := by
+  intro n
+  induction n with
+  | zero => intro k p; left; rfl
+  | succ n ih =>
+    intro k p
+    simp only [buildV]
+    cases hv : V k with
+    | none => left; rfl
+    | some r =>
+      rw [h k r hv]
+      simp only
+      obtain ⟨ver, org, body⟩ := r
+      cases body with
+      | value v => left; rfl
+      | leaf pre lp v => right; rfl
+      | full ch v =>
+        simp only
+        cases p with
+        | nil => right; rfl
+        | cons x rest =>
+          simp only [lookupP]
+          cases nibOf x with
+          | none => right; rfl
+          | some i =>
+            simp only
+            cases ch[i.val]? with
+            | none => right; rfl
+            | some o =>
+              cases o with
+              | none => right; rfl
+              | some ck =>
+                simp only [buildV_not_empty]
+                exact ih ck rest
+      | ext ep ck =>
+        simp only [lookupP]
+        by_cases h0 : matchLen p ep = 0
+        · right; simp [h0]
+        · by_cases h1 : matchLen p ep = ep.length
+          · rw [if_neg h0, if_pos h1, if_neg h0, if_pos h1]
+            exact ih ck _
+          · right; simp [h0, h1]
+
+/-- a lookup of `p` inspects at most `p.length + 1` nodes: any larger fuel gives the same partial-tree answer -/
+theorem lookupP_fuel (V : Bytes → Option Repr) :
+    ∀ (n m : Nat) (k p : Bytes), p.length < n → p.length < m →
+      lookupP (buildV V n k) p = lookupP (buildV V m k) p := by
+  intro n
+  induction n with
+  | zero => intro m k p h; omega
+  | succ n ih =>
+    intro m k p hn hm
+    cases m with
+    | zero => omega
+    | succ m =>
+      simp only [buildV]
+      cases hv : V k with
+      | none => rfl
+      | some r =>
+        simp only
+        obtain ⟨ver, org, body⟩ := r
+        cases body with
+        | value v => rfl
+        | leaf pre lp v => rfl
+        | full ch v =>
+          simp only
+          cases p with
+          | nil => rfl
+          | cons x rest =>
+            simp only [lookupP]
+            cases nibOf x with
+            | none => rfl
+            | some i =>
+              simp only
+              cases ch[i.val]? with
+              | none => rfl
+              | some o =>
+                cases o with
+                | none => rfl
+                | some ck =>
+                  simp only [buildV_not_empty]
+                  simp only [List.length_cons] at hn hm
+                  exact ih m ck rest (by omega) (by omega)
+        | ext ep ck =>
+          simp only [lookupP]
+          by_cases h0 : matchLen p ep = 0
+          · simp [h0]
+          · by_cases h1 : matchLen p ep = ep.length
+            · rw [if_neg h0, if_pos h1, if_neg h0, if_pos h1]
+              have hlen : (p.drop ep.length).length < p.length := by
+                have e := congrArg List.length (matchLen_eq_length p ep h1)
+                simp only [List.length_append] at e
+                have : 0 < ep.length := by omega
+                omega
+              exact ih m ck _ (by omega) (by omega)
+            · simp [h0, h1]
+
+/-! ### the cache updates of `insertNode` / `deleteNode` -/
+
+theorem cacheInsertNode_all {P : Bytes → Repr → Prop} {c : Cache} (hP : Cache.All P c) {newK : Bytes} {newR : Repr}
+    (h : P newK (cloneR newR)) (oldK : Option Bytes) : Cache.All P (cacheInsertNode c newK newR oldK) := by
+  unfold cacheInsertNode
+  cases oldK with
+  | none => exact hP.set h
+  | some ok =>
+    simp only
+    split
+    · exact hP.set h
+    · exact (hP.set h).remove ok
+
+theorem cacheDeleteNode_all {P : Bytes → Repr → Prop} {c : Cache} (hP : Cache.All P c) (k : Bytes) :
+    Cache.All P (cacheDeleteNode c k) := hP.remove k
+
 end Verif.Cache
